@@ -65,6 +65,118 @@ def run(ctx):
     r5_fallback(ctx)
     r6_safe_actions_cache(ctx)
     r7_probe_marked(ctx)
+    r8_recognition_order(ctx, pf)
+    r9_kwargs_type(ctx)
+    c05.seed_truthiness(ctx, "C15.R10")
+
+
+def _is_identity_any(e, actions_name):
+    """any(<x> is <a> for <a> in <actions>) -> text of <x>, else None"""
+    if isinstance(e, ast.Call) and call_name(e) == "any" and len(e.args) == 1 and isinstance(e.args[0], ast.GeneratorExp):
+        g = e.args[0]
+        if len(g.generators) == 1 and unparse(g.generators[0].iter) == actions_name and not g.generators[0].ifs \
+                and isinstance(g.elt, ast.Compare) and len(g.elt.ops) == 1 and isinstance(g.elt.ops[0], ast.Is) and isinstance(g.generators[0].target, ast.Name):
+            v = g.generators[0].target.id
+            l, r = g.elt.left, g.elt.comparators[0]
+            if isinstance(r, ast.Name) and r.id == v:
+                return unparse(l)
+            if isinstance(l, ast.Name) and l.id == v:
+                return unparse(r)
+    return None
+
+
+def r8_recognition_order(ctx, pf, rule="C15.R8"):
+    """Recognition of un-hinted answers.  The property quantifies over learners that return the offered action objects themselves, so
+    object identity is the one unambiguous signal; the numeric look-alike heuristics may only be consulted after it failed.  A string is a
+    bare action, never a sequence of parts."""
+    from ..cfg import CFG, forward
+    from ..dataflow import stored_names
+    ctx.rule(rule, "pred_format: (a) the PMF/action look-alike heuristics are consulted only on paths where the identity test "
+                       "`any(x is a for a in actions)` on the same value failed; (b) len() of the raw prediction is consulted only on paths "
+                       "where `isinstance(pred, str)` failed (a string is one bare action)")
+    params = [a.arg for a in pf.args.args]
+    P, ACT = params[0], params[1]
+    g = CFG(pf)
+
+    def disjuncts(t):
+        return t.values if isinstance(t, ast.BoolOp) and isinstance(t.op, ast.Or) else [t]
+
+    def transfer(n, st, label):
+        if label in ("exc", "abandon"):
+            return st
+        ids, raw_may_be_str = st
+        if n.kind == "test":
+            if label == "false":
+                for d in disjuncts(n.ast):
+                    x = _is_identity_any(d, ACT)
+                    if x is not None:
+                        ids = ids | {x}
+                    if isinstance(d, ast.Call) and call_name(d) == "isinstance" and len(d.args) == 2 and unparse(d.args[0]) == P \
+                            and "str" in [unparse(e) for e in (d.args[1].elts if isinstance(d.args[1], ast.Tuple) else [d.args[1]])]:
+                        raw_may_be_str = False
+            if label == "true" and isinstance(n.ast, ast.Call) and call_name(n.ast) == "isinstance" and unparse(n.ast.args[0]) == P \
+                    and "str" not in unparse(n.ast.args[1]):
+                raw_may_be_str = False  # e.g. isinstance(pred, dict) holds
+        if n.kind == "stmt" and n.ast is not None and not isinstance(n.ast, (ast.FunctionDef, ast.ClassDef)):
+            w = stored_names(n)
+            if P in w:
+                raw_may_be_str = False  # re-bound: no longer the raw answer
+                ids = frozenset(i for i in ids if P not in {x.id for x in ast.walk(ast.parse(i)) if isinstance(x, ast.Name)})
+        return (ids, raw_may_be_str)
+
+    def join(a, b):
+        return (a[0] & b[0], a[1] or b[1])
+
+    IN = forward(g, (frozenset(), True), transfer, join)
+    n_h = n_l = 0
+    for n in g.nodes:
+        if n.kind != "test" or n.id not in IN:
+            continue
+        ids, raw = IN[n.id]
+        for c in [c for c in ast.walk(n.ast) if isinstance(c, ast.Call)]:
+            if call_tail(c) in ("possible_pmf", "possible_action") and c.args:
+                n_h += 1
+                x = unparse(c.args[0])
+                ctx.ob(rule, SAF, "SafeLearner.pred_format", c, f"`{call_tail(c)}({x}, ...)` is consulted only after `any({x} is a for a in {ACT})` failed", x in ids,
+                       detail={"identity_tested_here": sorted(ids)})
+            if call_name(c) == "len" and c.args and unparse(c.args[0]) == P and raw is not None:
+                # only the raw answer matters: once re-bound (wrapped in a list) len() is about the wrapper
+                n_l += 1
+                ctx.ob(rule, SAF, "SafeLearner.pred_format", c, f"len({P}) of the raw answer is consulted only where it cannot be a str (a string is one action)", not raw,
+                       stmt=f"len(raw) in {norm_test(n.ast)}")
+    ctx.floor(rule, "look-alike heuristic calls in pred_format", n_h, 2)
+    ctx.floor(rule, "len() tests of the prediction in pred_format", n_l, 2)
+    # the identity verdicts: a successful identity test on a one-item answer is a bare action, on a two-item answer (action, prob)
+    for n in g.nodes:
+        if n.kind == "test" and _is_identity_any(n.ast, ACT) is not None:
+            for b, l in g.succ[n.id]:
+                nd = g.nodes[b]
+                if l == "true" and nd.kind == "stmt" and isinstance(nd.ast, ast.Return) and isinstance(nd.ast.value, ast.Constant):
+                    ctx.ob(rule, SAF, "SafeLearner.pred_format", nd.ast, "a successful identity test is answered with an action reading ('AX' / 'AP')",
+                           nd.ast.value.value in ("AX", "AP"), stmt="identity verdict " + str(nd.ast.value.value))
+
+
+def norm_test(t):
+    return unparse(t)[:60]
+
+
+def r9_kwargs_type(ctx):
+    ctx.rule("C15.R9", "has_kwargs recognises the documented kwargs type: primitives.Kwargs is an alias of Mapping[...], and has_kwargs tests "
+                       "isinstance(<last element>, <the abstract Mapping>) -- not a concrete subclass such as dict")
+    prim = ctx.model.modules["coba/primitives.py"].tree
+    alias = [x for x in prim.body if isinstance(x, ast.Assign) and any(isinstance(t, ast.Name) and t.id == "Kwargs" for t in x.targets)]
+    ctx.floor("C15.R9", "Kwargs alias in primitives", len(alias), 1)
+    base = alias[0].value.value if isinstance(alias[0].value, ast.Subscript) else alias[0].value
+    base = unparse(base).split(".")[-1]
+    fn = ctx.fn(SAF, "SafeLearner.has_kwargs")
+    tests = [c for c in walk_shallow(fn) if isinstance(c, ast.Call) and call_name(c) == "isinstance" and len(c.args) == 2]
+    ctx.floor("C15.R9", "isinstance tests in has_kwargs", len(tests), 1)
+    for c in tests:
+        cls = [unparse(e).split(".")[-1] for e in (c.args[1].elts if isinstance(c.args[1], ast.Tuple) else [c.args[1]])]
+        ctx.ob("C15.R9", SAF, "SafeLearner.has_kwargs", c, f"kwargs are recognised by the documented abstract type {base}", base in cls, detail={"tested": cls, "documented": base})
+        sel = c.args[0]
+        ok = isinstance(sel, ast.IfExp) and unparse(sel.body).endswith("[-1]") or unparse(sel).endswith("[-1]")
+        ctx.ob("C15.R9", SAF, "SafeLearner.has_kwargs", c, "the element tested is the last one of the (first row of the) answer", ok, stmt="kwargs position")
 
 
 def r7_probe_marked(ctx):
@@ -300,6 +412,10 @@ def _body_of(st):
 
 
 CONTROLS = [
+    ("identity test dropped before the PMF look-alike", SAF, M.delete_stmt("SafeLearner.pred_format", M.text_has("if any((std_pred[0] is action for action in actions)): return 'AX'")), "C15.R8"),
+    ("str guard merged away", SAF, M.replace_expr("SafeLearner.pred_format", "no_len(std_pred) or isinstance(std_pred, str)", "no_len(std_pred)"), "C15.R8"),
+    ("kwargs must be a dict", SAF, M.replace_expr("SafeLearner.has_kwargs", "abc.Mapping", "dict"), "C15.R9"),
+    ("seed 0 treated as missing", "coba/evaluators/sequential.py", M.replace_expr("SequentialCB.evaluate", "self._seed if self._seed is not None else CobaContext.store.get('experiment_seed')", "self._seed or CobaContext.store.get('experiment_seed')"), "C15.R10"),
     ("probe loses batch marker", SAF, M.replace_expr("SafeLearner.batch_order", "predictor(Batch([context[0]]), Batch([actions[0]]))", "predictor(context[:1], actions[:1])"), "C15.R7"),
     ("cache key set on one branch only", SAF, M.replace_stmt("SafeLearner.predict", M.simple_has("self._prev_actions = actions"), "if 0 in actions: self._prev_actions = actions"), "C15.R6"),
     ("drop AX in col arm", SAF, lambda tree: _drop_arm(tree, "col", "AX"), "C15.R1"),
